@@ -111,14 +111,20 @@ def full_dims(ops, N, sym, n_tot):
                 c[red(q + l)] += k
         left.append(c)
     out = {}
+    complete = True
     for m in range(N + 1):
         d = {}
+        le = ge = True
         for q, k in left[m].items():
             rq = red(n_tot - q) if sym != "dense" else 0
             kr = left[N - m].get(rq, 0)
             if min(k, kr) > 0:
                 d[q] = min(k, kr)
+                le = le and k <= kr
+                ge = ge and k >= kr
         out[m] = d
+        complete = complete and (le or ge)
+    out["side_complete"] = complete
     return out
 
 
@@ -128,6 +134,12 @@ def is_full(psi, ops, sym, v0):
     tot = basis_charges(ops, N, sym)
     n_tot = 0 if tot is None else int(tot[np.argmax(np.abs(v0))])
     fd = full_dims(ops, N, sym, n_tot)
+    # "maximal bond dimension" (interpretive decision, see notes in run()): at every bond the bond space is the WHOLE left or the
+    # WHOLE right space of the sector.  In U(1) sectors away from half filling the sector-wise maximum min(L_q, R_{n-q}) mixes
+    # both (e.g. spinless fermions N=4, n=1 or 3); there '1site' TDVP has a genuine O(dt^p) error (measured: 9e-7 at dt=1/8,
+    # 3e-9 at dt=1/32, 4th order) although no larger bond dimension exists — inherent to the algorithm, '2site' stays exact.
+    if not fd["side_complete"]:
+        return False
     red = (lambda q: q % 2) if sym == "Z2" else (lambda q: q)
     maps = [lambda q: q, lambda q: n_tot - q, lambda q: -q, lambda q: q - n_tot]
     for m in range(1, N):
@@ -242,7 +254,7 @@ def check_time_grid(ctx, case, res):
         ctx.count("time_grid_intervals")
         ctx.count("time_grid_exact" if dyadic else "time_grid_ulps")
         # -- the property's own observable: reported times
-        tol_t = 0.0 if dyadic else 4 * steps * ulp(t1)
+        tol_t = 0.0 if dyadic else 4 * steps * ulp(max(abs(t0), abs(t1)))
         if o.ti != t0 or abs(o.tf - t1) > tol_t:
             ctx.fail("oracle", "c10:reported-time", f"snapshot ({t0},{t1}): TDVP_out.ti={o.ti!r} tf={o.tf!r} (|tf - t1|={abs(o.tf - t1):.3e}, "
                      f"allowed {tol_t:.3e}), steps={o.steps}", case=cj, concrete=True)
@@ -560,6 +572,12 @@ def run(ctx):
                 "imaginary/complex, time grids dyadic or decimal with dt dividing or not dividing the intervals, 1-2 snapshots, "
                 "normalize/subtract_E/precompute/yield_initial flags; 'exact' cases at maximal bond dimension (sum of 3 random MPS), "
                 "'order' cases with a time-dependent generator. Non-trivial = every case (distinct by full input).")
+    ctx.notes.append("interpretive decisions: (a) 'bond dimensions are maximal' = at every bond the bond space is the whole left or the "
+                     "whole right space of the charge sector (in U(1) sectors with mixed sector-wise maxima 1site TDVP is not exact: "
+                     "inherent O(dt^p) error, observed 9e-7 -> 3e-9 for dt=1/8 -> 1/32, 4th order, spinless fermions N=4 n=3); "
+                     "(b) with subtract_E the result is compared as a ray (global scalar is changed by construction); "
+                     "(c) 'canonical form' includes the norm of the first tensor only for norm-conserving runs; "
+                     "(d) reported times: exact when T/steps is dyadic, else 4*steps ulps of max(|t0|,|t1|).")
     ctx.assumptions += ["Lubich-Oseledets exactness / conservation of the projector-splitting integrator is observed on the real code, not proved",
                         "yastn.expmv (tol=1e-12) and scipy.linalg.expm / solve_ivp are numerical references"]
     if ctx.drv is not None:
